@@ -119,3 +119,43 @@ def ambInit (n : Nat) : St AmbSt := ⟨{}, { done := false, live := (List.range 
 def amb2Init : St AmbSt := startAll {} 2
 
 end Comb
+
+/-! ## amb, NESTED: `rx.amb(s0, …, s(n-1))` as the code builds it — level `j` is the binary operator
+`amb(left := sj, right := level (j-1))`, level `-1` is `never`.  `ch j` is level j's `choice[0]`
+(`some true` = "L": its own source `sj`; `some false` = "R": the levels below).  A notification of `sk` enters level `k`
+on the left (`choice_left`: first time → dispose the right side, i.e. every source below, nearest first), and if level k
+forwards it, climbs through the levels above as their right input (`choice_right`: first time → dispose that level's left
+source) until it reaches the subscriber.  `RxProofs/C13.lean: amb_nested_eq_flat` proves that this machine and the
+flattened `ambM` produce the same effects for every event list. -/
+namespace Comb
+
+/-- climb from level `j` through `fuel` levels (to the top): new choices, the unsubscriptions made on the way, and
+whether the notification reached the subscriber -/
+def ambUp {β} : Nat → Nat → (Nat → Option Bool) → (Nat → Option Bool) × List (Act β) × Bool
+  | 0, _, ch => (ch, [], true)
+  | f + 1, j, ch =>
+    match ch j with
+    | none =>
+      let r := ambUp (β := β) f (j + 1) (upd ch j (some false))
+      (r.1, Act.unsub j :: r.2.1, r.2.2)          -- choice_right: `left_subscription.dispose()`
+    | some false => ambUp f (j + 1) ch              -- already "R": forward
+    | some true => (ch, [], false)                  -- this level chose its own source: dropped
+
+structure AmbNSt where
+  ch : Nat → Option Bool := fun _ => none
+
+def ambNestedHandler {α} (n : Nat) (s : AmbNSt) (k : Nat) (x : Notif α) : AmbNSt × List (Act α) :=
+  match s.ch k with
+  | none =>
+    -- choice_left at level k: `right_subscription.dispose()` closes level k-1, i.e. s(k-1), then level k-2, …
+    let r := ambUp (β := α) (n - (k + 1)) (k + 1) (upd s.ch k (some true))
+    (⟨r.1⟩, (List.range k).reverse.map Act.unsub ++ r.2.1 ++ (if r.2.2 then [Act.emit x] else []))
+  | some true =>
+    let r := ambUp (β := α) (n - (k + 1)) (k + 1) s.ch
+    (⟨r.1⟩, r.2.1 ++ (if r.2.2 then [Act.emit x] else []))
+  | some false => (s, [])
+
+def ambNestedM {α} (n : Nat) : Machine AmbNSt α α := { handler := ambNestedHandler n }
+def ambNestedInit (n : Nat) : St AmbNSt := ⟨{}, { done := false, live := (List.range n).reverse }⟩
+
+end Comb
